@@ -35,6 +35,9 @@ ASSUMPTIONS = [
     "that raises while the model is built (ROUND(1E+16,15): decimal.InvalidOperation) is data there — the history "
     "compares how it raises on both sides; after trim_graph only the declared inputs are written (writes to other "
     "surviving constants are outside trim_graph's contract: C08, Open)",
+    "iterative-settings stream: the original and the loaded iterative model are compared after the same warm-up and "
+    "after every formula cell of both has been written to the same start value (the saved document holds no values "
+    "of formula cells; first uses of an iterative model are finding C03-iterative-history-dependence, not compared)",
 ]
 
 CONTENT_POOL = [1e-7, 1e22, -0.0, 0.1, 123456789.125, 'true', 'null', '~', 'yes', '12', '1e3', '=notformula',
@@ -453,7 +456,16 @@ def run(ctx):
         "(SUMPRODUCT, SLOPE, INTERCEPT, FORECAST, INDEX(LINEST()), FACTDOUBLE, TREND) read by column D through a "
         "range (MAX/MIN/SUM/AVERAGE/COUNT/INDEX of C1:Cm) x yml/json/pkl x post-load histories that BEGIN with "
         "writes to the inputs (nothing evaluated between load and first write) and evaluate mostly downstream "
-        "cells; returned values by repr and class after every operation, complete cell maps at the end")
+        "cells; returned values by repr and class after every operation, complete cell maps at the end. "
+        "Iterative-settings stream (implementation against implementation): circular workbooks that do not settle "
+        "within 100 passes / 0.001 (a counter A2=A2+B1, a slowly converging A1=A1*r+B2, a two-cell cycle) x how the "
+        "settings are spelled (cycles=True forced on a plain workbook; iterate on without iterateCount/iterateDelta; "
+        "one of the two; both) x in-memory / .xlsx x yml/json/pkl: cycles of the loaded model = the original's "
+        "exactly (None entries included), a save of the loaded model (yml and json) writes the same settings, and "
+        "after an identical warm-up and the same start values the same history returns the same values. "
+        "Awkward-text stream (deterministic): every text of the content pool as a constant, under &, =, LEN and as a "
+        "formula text literal, in one workbook per text x yml/json/pkl, every cell evaluated on the original and on "
+        "the loaded model")
     nwb = ctx.n(70, 800)
     nproc = 0
     batch = []          # correspondence cases (model = coq/Model/Persist.v)
@@ -732,6 +744,12 @@ def run(ctx):
     inexact_stream(ctx, ExcelCompiler, numpy_constants=True)
     digits17_stream(ctx, ExcelCompiler)
     numpy_results_stream(ctx, ExcelCompiler)
+    for stream in (iterative_settings_stream, awkward_text_stream):
+        try:
+            stream(ctx, ExcelCompiler)
+        except Exception:      # noqa: BLE001
+            import traceback
+            ctx.broke(f"harness: {stream.__name__} failed", traceback.format_exc())
     correspondence(ctx, batch)
     shutil.rmtree(ctx.work, ignore_errors=True)
 
@@ -1399,3 +1417,181 @@ def numpy_results_stream(ctx, ExcelCompiler):
                     if f.startswith(f'n{k}.'):
                         os.remove(os.path.join(ctx.work, f))
             compare_histories(ctx, case, orig, loaded, ops, snapshots=False, final_snapshot=True)
+
+
+# ------------------------------------------------------------------ iterative-calculation settings
+# (iterateCount, iterateDelta) spelled out in the workbook: None = left out (what Excel writes for its defaults; what
+# a workbook that does not mention iterative calculation has when cycles=True is forced on it)
+ITER_SETTINGS = [('forced', None, None), ('iterate-only', None, None), ('count-only', 300, None),
+                 ('delta-only', None, 0.5), ('explicit', 100, 0.001), ('explicit', 150, 0.125), ('explicit', 7, 0.01),
+                 ('delta-only', None, 0.0001), ('count-only', 20000, None), ('explicit', 30, 0.001)]
+
+
+def _gen_iterative(rng):
+    """Sheet S: inputs B1 (step), B2; circular formulas that do NOT settle within 100 passes / a change of 0.001 - a
+    counter A2 = A2+B1 (never converges), a slowly converging cell A1 = A1*r+B2, a two-cell cycle A3 = A4*r+B1,
+    A4 = A3+1 - and an ordinary dependant A5 (no ranges: C06-range-cached-forever).  {coord: content}"""
+    r = rng.choice([0.5, 0.75, 0.875, 0.9375])
+    cells = {'B1': rng.choice([1, 2, 3, 0.5]), 'B2': rng.choice([1, 2, 5, 10])}
+    cells['A1'] = f'=A1*{r}+B2'
+    cells['A2'] = rng.choice(['=A2+B1', '=A2+B1', '=A2+B1*2', '=B1+A2+1'])
+    if rng.random() < 0.4:
+        cells['A3'] = f'=A4*{rng.choice([0.5, 0.75])}+B1'
+        cells['A4'] = '=A3+1'
+    if rng.random() < 0.5:
+        cells['A5'] = rng.choice(['=A1+1', '=A1*2', '=A1+B2'])
+    return cells
+
+
+def iterative_settings_stream(ctx, ExcelCompiler):
+    """Iterative models x how the workbook spells the iteration settings (cycles=True forced on a plain workbook;
+    iterate on without iterateCount / iterateDelta; one of the two; both) x in-memory workbook / .xlsx file x yml,
+    json, pkl.  Oracle: (1) `cycles` of the loaded model equals the original's EXACTLY, None entries included (a
+    missing setting is not replaced by a default: evaluation falls back to 10000 passes / 0.01 only when asked);
+    (2) a save of the loaded model writes the settings the original wrote; (3) behaviour, like with like: the original
+    (before the save) and the loaded model get the same warm-up (every formula cell evaluated twice, not compared:
+    finding C03-iterative-history-dependence is about first uses), every formula cell of both is then written to
+    the same start value, and the same history of set_value on the inputs and evaluate of the circular cells is run
+    on both - every returned value equal (a counter shows the number of passes, a slowly converging cell the
+    tolerance)."""
+    import openpyxl
+    from openpyxl.workbook.properties import CalcProperties
+    from harness.common import jsonable
+    rng = ctx.rng
+    variants = list(ITER_SETTINGS)
+    n = ctx.n(15, 90)
+    for k in range(n):
+        # every spelling once, then mostly the left-out settings
+        name, count, delta = variants[k] if k < len(variants) else rng.choice(variants[:2] + variants[:4])
+        ext = ['yml', 'json', 'pkl'][(k + k // 3) % 3]
+        source = 'file' if k % 4 == 3 else 'memory'
+        cells = _gen_iterative(rng)
+        formulas = sorted(a for a, v in cells.items() if isinstance(v, str))
+        desc = [(f'S!{a}', None, v) if a in formulas else (f'S!{a}', v, None) for a, v in sorted(cells.items())]
+        case = dict(call='persist-iterative', workbook=desc, args=[ext, name, source],
+                    settings=dict(iterateCount=count, iterateDelta=delta))
+        ctx.count(('iterative', k), kind=f'iterative-settings:{name}:{ext}', sample=case)
+        stem = os.path.join(ctx.work, f'it{k}_m')
+
+        def compile_():
+            owb = openpyxl.Workbook()
+            ws = owb.active
+            ws.title = wbgen.SHEET
+            for a, v in cells.items():
+                ws[a] = v
+            if name != 'forced':
+                owb.calculation = CalcProperties(iterate=True, iterateCount=count, iterateDelta=delta)
+            kw = dict(cycles=True) if name == 'forced' else {}
+            if source == 'file':
+                owb.save(stem + '.xlsx')
+                return ExcelCompiler(filename=stem + '.xlsx', **kw)
+            return ExcelCompiler(excel=owb, **kw)
+
+        def warm(comp):
+            for a in formulas:
+                for _ in range(2):
+                    quiet_evaluate(comp, f'S!{a}')
+        try:
+            orig = compile_()
+            want_cycles = dict(iterations=count, tolerance=delta)
+            if orig.cycles != want_cycles:
+                ctx.violation(dict(case, leg='compile'), "the compiled model does not carry the iteration settings the "
+                              "workbook spells out (None where it leaves one out)", impl=jsonable(orig.cycles),
+                              expected=want_cycles)
+            warm(orig)
+            orig.to_file(stem, file_types=(ext,))
+            doc0 = None
+            if ext != 'pkl':
+                doc0 = parse_doc(stem + '.' + ext, ext)
+            loaded = ExcelCompiler.from_file(stem + '.' + ext)
+        except Exception as exc:      # noqa: BLE001
+            ctx.violation(dict(case, leg='save/load'), f"compile/save/load raises {type(exc).__name__}: {exc}"[:200])
+            continue
+        try:
+            # (1) the settings object
+            same_settings = isinstance(loaded.cycles, dict) and dict(loaded.cycles) == dict(orig.cycles) and all(
+                type(loaded.cycles[key]) is type(orig.cycles[key]) or isinstance(loaded.cycles[key], (int, float))
+                and not isinstance(loaded.cycles[key], bool) and orig.cycles[key] is not None
+                for key in ('iterations', 'tolerance'))
+            if not same_settings:
+                ctx.violation(dict(case, leg='settings'), "iteration settings do not survive the trip",
+                              impl=jsonable(loaded.cycles), expected=jsonable(orig.cycles))
+            # (2) what a save of the loaded model writes (both text formats)
+            for ext2 in ('yml', 'json'):
+                loaded.to_file(stem + '_again', file_types=(ext2,))
+                doc2 = parse_doc(stem + '_again.' + ext2, ext2)
+                got = dict(doc2['cycles']) if hasattr(doc2.get('cycles'), 'keys') else doc2.get('cycles')
+                if got != dict(orig.cycles) or (doc0 is not None and ext2 == ext and dict(doc0['cycles']) != got):
+                    ctx.violation(dict(case, leg='resave', format=ext2),
+                                  "a save of the loaded model does not write the iteration settings of the original",
+                                  impl=jsonable(got), expected=jsonable(orig.cycles))
+            # (3) behaviour, like with like: the saved document holds no values of formula cells, so the loaded model
+            # starts where a fresh compile starts; it gets the warm-up the original had before the save (first uses
+            # are behind both), then every formula cell of both models is written to the same start value
+            warm(loaded)
+            ops = [['set', f'S!{a}', rng.choice([0, 1, 2, -3, 0.5])] for a in formulas]
+            for _ in range(rng.randrange(2, 4)):
+                ops.append(['set', 'S!B1', rng.choice([1, 2, 3, 0.5, -1, 4])])
+                if rng.random() < 0.6:
+                    ops.append(['set', 'S!B2', rng.choice([1, 2, 5, 10, -3])])
+                for a in rng.sample(formulas, min(len(formulas), rng.randrange(1, 3))):
+                    ops += [['eval', f'S!{a}'], ['eval', f'S!{a}']]
+            want, got = run_ops(orig, ops), run_ops(loaded, ops)
+            if jsonable(want) != jsonable(got):
+                first = next(i for i, (a, b) in enumerate(zip(jsonable(got), jsonable(want))) if a != b)
+                ctx.violation(dict(case, leg='behaviour', ops=ops[:first + 1]),
+                              "after an identical warm-up the loaded iterative model answers the same operations "
+                              "differently from the original", impl=got[first], expected=want[first])
+        except Exception as exc:      # noqa: BLE001
+            ctx.violation(dict(case, leg='exception'), f"{type(exc).__name__}: {exc}"[:200])
+        finally:
+            for f in os.listdir(ctx.work):
+                if f.startswith(f'it{k}_m'):
+                    os.remove(os.path.join(ctx.work, f))
+
+
+# ------------------------------------------------------------------ every awkward text of the pool, every format
+def awkward_text_stream(ctx, ExcelCompiler):
+    """Deterministic: for every text of CONTENT_POOL one workbook holding it as a constant (A1), read by =A1&"x",
+    =LEN(A1), =A1=A3 against a second copy (A3) and - where the format has no known finding for the text - a formula
+    whose TEXT LITERAL is that text; saved in yml, json and pkl, loaded, every cell evaluated on both."""
+    from harness.common import jsonable
+    texts = [v for v in CONTENT_POOL if isinstance(v, str) and v != '' and not v.startswith('=')]
+    for ti, text in enumerate(texts):
+        for ext in ('yml', 'json', 'pkl'):
+            wb = wbgen.WB()
+            a1 = wb.add_input(text)
+            wb.add_formula('=A1&"x"', [a1], [3, 5, [0, 0], [2, 120]])
+            a3 = wb.add_input(text)
+            wb.add_formula('=A1=A3', [a1, a3], [3, 7, [0, 0], [0, 1]])
+            wb.add_formula('=LEN(A1)', [a1], [0])
+            known = ('\\x85' in text and ext in ('yml', 'pkl')) or (ext == 'json' and any(ord(ch) > 0xFFFF for ch in text))
+            if not known:
+                lit = text.replace('"', '""')
+                wb.add_formula(f'="{lit}"&A1', [a1], [0])
+            desc = [(x['addr'], x.get('value'), x.get('text')) for x in wb.nodes]
+            case = dict(call='persist', workbook=desc, args=[ext, 'plain', 'same'], stream='awkward-text')
+            ctx.count(('awkward', ti, ext), kind=f'awkward-text:{ext}')
+            stem = os.path.join(ctx.work, f'awk{ti}_m')
+            try:
+                orig = ExcelCompiler(excel=wb.to_openpyxl())
+                ops = [['eval', wb.nodes[i]['addr']] for i in wb.cells()]
+                want = run_ops(orig, ops)
+                orig.to_file(stem, file_types=(ext,))
+                try:
+                    loaded = ExcelCompiler.from_file(stem + '.' + ext)
+                except Exception as exc:      # noqa: BLE001
+                    ctx.violation(dict(case, leg='load'), f"from_file raises {type(exc).__name__}: {exc}"[:200])
+                    continue
+                got = run_ops(loaded, ops)
+                if jsonable(got) != jsonable(want):
+                    first = next(i for i, (a, b) in enumerate(zip(jsonable(got), jsonable(want))) if a != b)
+                    ctx.violation(dict(case, history=ops[:first + 1]),
+                                  "the loaded model answers a history differently from the original",
+                                  impl=got[first], expected=want[first])
+            except Exception as exc:      # noqa: BLE001
+                ctx.violation(dict(case, leg='save'), f"build/save raises {type(exc).__name__}: {exc}"[:200])
+            finally:
+                for f in os.listdir(ctx.work):
+                    if f.startswith(f'awk{ti}_m'):
+                        os.remove(os.path.join(ctx.work, f))
